@@ -608,17 +608,17 @@ func (options *Options) Unmarshal(data []byte, optionDefs map[OptionID]OptionDef
 //
 // Returns modified options, number of used buf bytes and error if occurs.
 func (options Options) ResetOptionsTo(buf []byte, in Options) (Options, int, error) {
-	opts := options[:0]
 	used := 0
-	for idx, o := range in {
-		if len(buf) < len(o.Value) {
-			for i := idx; i < len(in); i++ {
-				used += len(in[i].Value)
-			}
-			return options, used, ErrTooSmall
-		}
-		copy(buf, o.Value)
+	for _, o := range in {
 		used += len(o.Value)
+	}
+	if len(buf) < used {
+		// nothing is overwritten when the values do not fit
+		return options, used, ErrTooSmall
+	}
+	opts := options[:0]
+	for _, o := range in {
+		copy(buf, o.Value)
 		opts = opts.Add(Option{
 			ID:    o.ID,
 			Value: buf[:len(o.Value)],
